@@ -45,6 +45,23 @@ def gen_strings(tier, seed):
         for tup in itertools.product(alpha3, repeat=n):
             out.append("".join(tup))
     out += ['"a//b\nc" x', 'u = "http://h/p\n//q" + "r"; // t "u\nv', '"//"\n"//\n"//', "'/' '/'//'\n'/'", '"a\n//b\n" //c\n"d"']
+    # identifiers that start with (or merely resemble) a keyword, of every length around it; keywords glued to digits / underscores
+    KEYWORDS = ["function", "return", "final", "static", "class", "extends", "import", "package", "measure", "reset", "while", "for", "if", "else", "int", "long", "float",
+                "bit", "qubit", "string", "char", "boolean", "void", "true", "false", "null", "new", "this", "super", "public", "private", "protected", "virtual", "override",
+                "abstract", "constructor", "destructor", "default", "destroy", "echo", "tracked", "quantum", "shots"]
+    for kw in KEYWORDS:
+        for tail in ("", "s", "Count", "_1", "9", "able", "ing", "X" * 9, kw):
+            for head in ("", "x ", "@"):
+                out.append(head + kw + tail + " y")
+        out.append(kw[:-1] + " " + kw[:-1] + "x")
+        out.append(kw.upper() + " " + kw.capitalize())
+    # backslashes inside literals (Bloch strings have no escapes: a backslash is an ordinary character), also right before line
+    # breaks and quotes
+    alpha4 = ['"', "\\", "\n", "a", "'", " "]
+    for n in range(1, (6 if tier == "quick" else 7)):
+        for tup in itertools.product(alpha4, repeat=n):
+            out.append("".join(tup))
+    out += ['s = "a\\\nb" + 1; t', 'u = "x\\" ; v', "c = '\\'; d", 'w = "p\\\n\\\nq"\n  z;']
     out += SEEDS
     ex = os.path.join(vlib.REPO, "examples")
     if os.path.isdir(ex):
